@@ -138,6 +138,13 @@ def body_intersperse(l0, l1, i):
     return _check_index_contract(ds, l0 + l1, i, lambda j: order[_realise(j, l0 + l1)])
 
 
+def body_intersperse3(l0, l1, l2, i):
+    ds = IntersperseDataset(AbsDS(0, l0), AbsDS(1, l1), AbsDS(2, l2))
+    order = U.intersperse_order([l0, l1, l2])
+    rt.reached()
+    return _check_index_contract(ds, l0 + l1 + l2, i, lambda j: order[_realise(j, l0 + l1 + l2)])
+
+
 def _realise(j, n):
     k = 0
     while k < n - 1 and k != j:
@@ -302,6 +309,9 @@ FAMILIES = [
            desc='BatchDataset non-negative index, unbounded length and index'),
     Family('L1_intersperse', body_intersperse, ['l0', 'l1'], INTS('i'), lambda t, s: [(a, b) for a in range(1, 5) for b in range(1, 5)], timeout=60,
            desc='IntersperseDataset order table, lengths 1..4 x 1..4, unbounded index'),
+    Family('L1_intersperse3', body_intersperse3, ['l0', 'l1', 'l2'], INTS('i'),
+           lambda t, s: [(a, b, c) for a in range(1, (5 if t == 'quick' else 6)) for b in range(1, (5 if t == 'quick' else 6)) for c in range(1, 6) if a <= b or t != 'quick'], timeout=60,
+           desc='IntersperseDataset over three datasets of unequal lengths, unbounded index'),
     Family('L1_slice_idx', body_slice_idx, ['m'], INTS('l0', 'j0', 'j1', 'j2', 'i'), lambda t, s: [(m,) for m in range(0, (3 if t == 'quick' else 4))], timeout=dict(quick=90, thorough=900),
            desc='SliceDataset over an arbitrary valid index vector (input length <= 3)'),
     Family('L1_slice_ab', body_slice_ab, ['form'], INTS('l0', 'a', 'b', 'i'), lambda t, s: [(f,) for f in U.SLICE_FORMS], timeout=dict(quick=90, thorough=600),
